@@ -109,10 +109,11 @@ def build_world(w, fmt, root, times=CLI_TIMES):
         if n == 'BB-MIB' and w.get('sub') and st != 'missing':
             where = os.path.join(src, 'vendor', 'more')       # below the top directory of the (recursive) source
             os.makedirs(where)
+        packed = module_text('BB-MIB', w) if (n == 'AA-MIB' and w['srcB'] == 'packed') else ''      # two modules in one file
         if st == 'ok':
-            _put(os.path.join(where, n + '.txt'), module_text(n, w), T0)
+            _put(os.path.join(where, n + '.txt'), module_text(n, w) + packed, T0)
         elif st == 'broken':
-            _put(os.path.join(where, n + '.txt'), module_text(n, w).replace('END\n', '::= ::= END\n'), T0)
+            _put(os.path.join(where, n + '.txt'), module_text(n, w).replace('END\n', '::= ::= END\n') + packed, T0)
     if w['alias']:
         _put(os.path.join(src, 'afile.txt'), module_text('AA-MIB', w), T0)
     if w['src2A'] == 'ok':
